@@ -26,7 +26,7 @@ for p in props:
             "engine": "gosym",
             "level_claimed": {"category": "model_checking", "text": c["level_text"], "design_ref": c.get("design_ref", "DESIGN.md section 6/" + pid)},
             "level_note": c["level_note"],
-            "technique": c.get("technique", "bounded symbolic execution of go/ssa + SMT (z3): every branch, assertion and panic decided over all input values within the stated bounds; counterexamples replayed natively"),
+            "technique": c.get("technique", "bounded symbolic execution of go/ssa + SMT (z3): every branch, assertion and panic decided over all input values within the stated bounds; counterexamples replayed natively; sampled unsat verdicts cross-checked by second solvers (z3 5.1.0, cvc5)"),
         })
     else:
         m["not_applicable"].append({"property_id": pid, "reason": c.get("reason", "check not built yet (work in progress; see DESIGN.md section 6)")})
